@@ -4,7 +4,7 @@
      gslSafeGetline                                                  /repo/src/Basic/File.cpp:174
      trim                                                            /repo/src/Basic/String.cpp:703  (SPACES " \t\r\n")
      num_get<long>/<double> as used through a stringstream           libstdc++ _M_extract_int / _M_extract_float
-     ASerializable::_fileOpenRead                                    /repo/src/Basic/ASerializable.cpp:114
+     ASerializable::_fileOpenRead                                    /repo/src/Basic/ASerializable.cpp:145
      ASerializable::_recordRead<T>                                   /repo/include/Basic/ASerializable.hpp:169
      ASerializable::_recordReadVec<T>                                ASerializable.hpp:222
      ASerializable::_recordReadVecInPlace<T>                         ASerializable.hpp:294
@@ -202,9 +202,10 @@ Definition count_ok (E : env) (n : Z) (m : mon) : bool :=
   if fix_counts (e_cfg E) then (0 <=? n) && (n <=? remaining m) else true.
 
 (* ------------------------------------------------------------------ _fileOpenRead *)
+(* the class tag is the whole first line, trimmed (ASerializable.cpp:145) *)
 Definition file_open (tag : list Z) (f : list Z) : option mon :=
-  let (w, s) := read_word (open_stream f) in
-  if bytes_eqb w tag && good s then Some (mkM s 0) else None.
+  let (t, s) := getline (open_stream f) in
+  if bytes_eqb (trim t) tag && good s then Some (mkM s 0) else None.
 
 (* ------------------------------------------------------------------ _recordRead<T> *)
 (* The loop "skip comment or empty lines". The test "!is.good() && !is.eof()" needs failbit without eofbit,
